@@ -79,8 +79,33 @@ def _mutated_self_attrs(P, cls, skip):
     return names
 
 
+def _leaf_consts(P, expr, module, cls):
+    """Constants an expression may evaluate to when it is a tree of conditional
+    expressions / ``or`` / ``and`` over foldable leaves; None when it is anything else."""
+    if isinstance(expr, ast.IfExp):
+        a = _leaf_consts(P, expr.body, module, cls)
+        b = _leaf_consts(P, expr.orelse, module, cls)
+        return None if a is None or b is None else a | b
+    if isinstance(expr, ast.BoolOp):
+        out = set()
+        for v in expr.values:
+            a = _leaf_consts(P, v, module, cls)
+            if a is None:
+                return None
+            out |= a
+        return out
+    try:
+        v = P.fold(expr, module, cls)
+    except Exception:
+        return None
+    if isinstance(v, (type(None), bool, int, str, bytes)):
+        return {v}
+    return None
+
+
 def attr_store_summary(P, cls, name):
     """Kinds / constants of every value stored to self.<name> anywhere in the class."""
+    from sa.values import kind_of
     kinds = set()
     consts = set()
     exact = True
@@ -90,29 +115,38 @@ def attr_store_summary(P, cls, name):
             fns += list(p.values())
         for f in fns:
             first = f.params()[0] if f.params() else None
+
+            def is_target(t):
+                return isinstance(t, ast.Attribute) and isinstance(t.value, ast.Name) and t.value.id == first and t.attr == name
+            handled = set()
             for n in walk_no_nested(f.node):
                 if isinstance(n, ast.Assign):
                     for t in n.targets:
-                        if isinstance(t, ast.Attribute) and isinstance(t.value, ast.Name) and t.value.id == first and t.attr == name:
-                            try:
-                                v = P.fold(n.value, f.module, c)
-                                from sa.values import kind_of
-                                k = kind_of(v)
-                                if k and isinstance(v, (type(None), bool, int, str, bytes)):
-                                    kinds |= k
-                                    consts.add(v)
-                                else:
-                                    exact = False
-                            except Exception:
+                        if is_target(t):
+                            handled.add(id(t))
+                            vs = _leaf_consts(P, n.value, f.module, c)
+                            if vs is None:
                                 exact = False
+                            else:
+                                for v in vs:
+                                    kinds |= kind_of(v)
+                                    consts.add(v)
                 elif isinstance(n, ast.AugAssign):
                     t = n.target
-                    if isinstance(t, ast.Attribute) and isinstance(t.value, ast.Name) and t.value.id == first and t.attr == name:
+                    if is_target(t):
+                        handled.add(id(t))
                         if isinstance(n.op, (ast.Add, ast.Sub)):
-                            consts = None if consts is not None else None
                             kinds.add('+=')
                         else:
                             exact = False
+            for n in walk_no_nested(f.node):
+                # any other way of storing the attribute (tuple target, for/with target, del, setattr) is not summarised
+                if is_target(n) and isinstance(n.ctx, (ast.Store, ast.Del)) and id(n) not in handled:
+                    exact = False
+                if isinstance(n, ast.Call) and isinstance(n.func, ast.Name) and n.func.id in ('setattr', 'delattr'):
+                    exact = False
+                if isinstance(n, ast.Attribute) and n.attr == '__dict__':
+                    exact = False
     return kinds, consts, exact
 
 
